@@ -1,8 +1,43 @@
-"""C13 — stave-level ALPIDE frame checks (partial; table part written first because C04 reuses it)."""
+"""C13 — stave-level ALPIDE frame checks are exact and ignore hit content (structural part).
+
+Decided:
+R13.1 the lane decoder as a table: the class of each of the 256 byte values
+      (constant folding of AlpideWord::from_byte with first-match semantics)
+      and the state effect of each byte value in LaneAlpideFrameAnalyzer::decode
+      equal oracles/alpide.json; the three early exits (hit bytes being
+      skipped, the bunch-counter byte, padding) end the step; the byte is
+      looked at only for classification, the padding test, the bunch counter,
+      the low nibble of a chip header/empty frame and the trailer flags —
+      never in the data-word arms or while skipping (hit content cannot
+      influence verdict or counters); every byte of a lane is fed in order;
+      the readout-flag counters per trailer value.
+R13.2 frame rules: lanes per frame 3/8/14 lowered only by the number of fatal
+      lanes; the three inner groups and their fatal-lane pruning; lane data is
+      keyed by byte 9 and holds bytes 0..=8; a frame opens at a TDH with
+      continuation 0 when none is open (start offset = that word's position)
+      and is processed at a TDT with packet_done; per-lane and cross-lane
+      bunch-counter comparison over validated lanes only; IB chip count 1 and
+      chip id == lane; codes E72/E73, E74/E75, E701, E59, E9003 at the frame
+      start offset.
+R13.3 fatal lanes come only from the fatal APE classes.
+Not decided: the verdict on actual frames (needs executing the decoder over
+generated streams — a different technique family)."""
+import re
+
 from ..thir import Evaluator, Bits, Agg, Sym, Cond, ckey, vkey, Unsupported
+from ..emit import codes_in, first_literal, macro_source
+from ..mir import show_origin
 
 EXPLANATION = __doc__
 AW = "fastpasta::words::its::alpide::alpide_word::"
+LA = "fastpasta::analyze::validators::its::alpide::lane_alpide_frame_analyzer::LaneAlpideFrameAnalyzer::<'a>::"
+ARF = "fastpasta::analyze::validators::its::alpide::alpide_readout_frame::"
+RFV = "fastpasta::analyze::validators::its::cdp_running::readout_frame::ItsReadoutFrameValidator::<C>::"
+CDP = "fastpasta::analyze::validators::its::cdp_running::CdpRunningValidator::<T, C>::"
+ALP = "fastpasta::analyze::validators::its::alpide::"
+RF = "fastpasta::stats::stats_collector::its_stats::alpide_stats::ReadoutFlags::log"
+LAYER = "fastpasta::words::its::Layer"
+STATE_FIELDS = ("skip_n_bytes", "next_is_bc", "is_header_seen", "last_chip_id", "lane_status_fatal")
 
 
 def alpide_class_table(facts):
@@ -29,3 +64,697 @@ def alpide_class_table(facts):
         else:
             out[b] = "UNRECOGNISED:" + vkey(r)[:60]
     return out
+
+
+def _noise(n):
+    mac = (n.get("sp") or {}).get("mac") or []
+    return any(m.startswith(("debug_assert", "assert")) or "log::" in m or m.startswith("log!") for m in mac)
+
+
+def _fields_in(tb, i):
+    return sorted(set(n.get("name") for _, n in tb.walk(i) if n["k"] == "Field" and n.get("name")))
+
+
+def _variant_names(pat):
+    if pat["k"] == "Variant":
+        sub = [x for s in pat.get("subs", []) for x in _variant_names(s["p"])]
+        return [pat.get("vname")] + sub if pat.get("vname") not in ("Ok", "Err", "Some") else (sub or [pat.get("vname")])
+    if pat["k"] == "Or":
+        return [x for p in pat["pats"] for x in _variant_names(p)]
+    if pat["k"] == "Deref" and pat.get("sub"):
+        return _variant_names(pat["sub"])
+    if pat["k"] == "Bind":
+        return ["bind:" + pat.get("name", "?")]
+    if pat["k"] == "Wild":
+        return ["_"]
+    return [pat["k"]]
+
+
+def byte_uses(tb, byte_id):
+    """contexts in which the decoder looks at its byte parameter (log/assert macros excluded)"""
+    found = []
+
+    def rec(i, ctx):
+        i, n = tb.e(i)
+        if _noise(n):
+            return
+        k = n["k"]
+        if k in ("Var", "Upvar") and n.get("id") == byte_id:
+            found.append(ctx)
+            return
+        if k == "If":
+            fl = ",".join(_fields_in(tb, n["cond"]))
+            rec(n["cond"], ctx + ("cond[%s]" % fl,))
+            rec(n["then"], ctx + ("then[%s]" % fl,))
+            if n.get("else") is not None:
+                rec(n["else"], ctx + ("else[%s]" % fl,))
+            return
+        if k == "Match":
+            rec(n["scrut"], ctx + ("scrutinee",))
+            for a in n["arms"]:
+                arm = tb.arms[a]
+                rec(arm["body"], ctx + ("arm:" + "|".join(_variant_names(arm["pat"])),))
+            return
+        for ch in tb.children(i):
+            rec(ch, ctx)
+
+    rec(tb.root, ())
+    return found
+
+
+def run(ctx, rep):
+    f = ctx.facts()
+    ev = Evaluator(f)
+    cg = ctx.cg()
+    reach = ctx.reachable()
+    O = ctx.oracle("alpide.json")
+    r131(ctx, rep, f, ev, cg, reach, O)
+    r132(ctx, rep, f, ev, cg, reach, O)
+    r133(ctx, rep, f, ev, cg, reach, O)
+
+
+def _ranges(bs):
+    bs = sorted(bs)
+    out = []
+    i = 0
+    while i < len(bs):
+        j = i
+        while j + 1 < len(bs) and bs[j + 1] == bs[j] + 1:
+            j += 1
+        out.append("0x%02X" % bs[i] if i == j else "0x%02X-0x%02X" % (bs[i], bs[j]))
+        i = j + 1
+    return ",".join(out)
+
+
+# ------------------------------------------------------------------ R13.1
+def r131(ctx, rep, f, ev, cg, reach, O):
+    W = "fastpasta/src/words/its/alpide/alpide_word.rs"
+    WL = "fastpasta/src/analyze/validators/its/alpide/lane_alpide_frame_analyzer.rs"
+    table = alpide_class_table(f)
+    norm = {b: ("Busy" if c in ("BusyOn", "BusyOff") else c) for b, c in table.items()}
+    want = {}
+    for r in O["classes"]:
+        for b in range(r["lo"], r["hi"] + 1):
+            want[b] = r["class"]
+    rep.floor("R13.1-oracle-bytes", len(want), 256, "byte values covered by the oracle class table")
+    for r in O["classes"]:
+        bad = [b for b in range(r["lo"], r["hi"] + 1) if norm.get(b) != r["class"] and not (b == 0 and norm.get(b) in ("DataLong",))]
+        rep.check(not bad, "R13.1", "R13.1|class|%s|0x%02X" % (r["class"], r["lo"]),
+                  "bytes 0x%02X-0x%02X classify as %s" % (r["lo"], r["hi"], r["class"]), W,
+                  "bytes %s classify as %s, documented class is %s" % (_ranges(bad), sorted(set(norm.get(b) for b in bad)), r["class"]))
+
+    # per-byte state effect of decode()
+    dec = LA + "decode"
+    if dec not in f.fns:
+        rep.missing("R13.1", dec)
+        return
+    per_class = {}
+    pad_conds = {}
+    for b in range(256):
+        try:
+            out = ev.collect_ifs(dec, [Sym("self"), Bits.const(b, 8)])
+        except Unsupported as e:
+            rep.bad("R13.1", "R13.1|effect|unevaluable", "decode(0x%02X) cannot be evaluated: %s" % (b, e), WL)
+            return
+        eff = {}
+        for o in out:
+            if "assign" in o and o["guard"] and all(g == "true" for g in o["guard"]):
+                op, lhs, rhs = o["assign"]
+                m = re.fullmatch(r"sym\(self\.(\w+)\)", lhs)
+                name = m.group(1) if m else lhs
+                eff[name] = ("" if op == "=" else op + ":") + rhs
+        if "last_chip_id" in eff:
+            eff["last_chip_id"] = "low4" if eff["last_chip_id"] == hex(b & 0xF) else eff["last_chip_id"]
+        per_class.setdefault(want[b], {}).setdefault(tuple(sorted(eff.items())), []).append(b)
+        conds = [ckey(o["cond"]) for o in out if "cond" in o]
+        pad_conds[b] = conds[3] if len(conds) > 3 else "?"
+    for cls, variants in sorted(per_class.items()):
+        exp = tuple(sorted(O["effects"].get(cls, {}).items()))
+        bad = {k: v for k, v in variants.items() if k != exp}
+        rep.check(not bad, "R13.1", "R13.1|effect|%s" % cls, "%s: state effect %s for all %d byte values" % (cls, dict(exp), sum(len(v) for v in variants.values())), WL,
+                  "decoder effect of class %s: %s — documented effect is %s" % (cls, "; ".join("%s → %s" % (_ranges(v), dict(k)) for k, v in bad.items()), dict(exp)))
+    # padding: only 0x00 while no header was seen
+    pad_ok = all((pad_conds[b] == "false") for b in range(1, 256)) and pad_conds[0] == "symc(sym(Not(sym(self.is_header_seen))))"
+    rep.check(pad_ok, "R13.1", "R13.1|padding", "a byte is dropped as padding iff it is 0x00 and no chip header is open", WL,
+              "padding test is not `byte == 0 && !is_header_seen`: byte 0 → %s; other bytes with a non-false test: %s" % (pad_conds[0], _ranges([b for b in range(1, 256) if pad_conds[b] != "false"])))
+
+    # early exits end the step
+    tb = ev.tb(dec)
+    ifs = [(x, n) for x, n in tb.walk() if n["k"] == "If" and not _noise(n)]
+    labels = {}
+    for x, n in ifs:
+        fl = tuple(_fields_in(tb, n["cond"]))
+        labels.setdefault(fl, []).append((x, n))
+    for fl, name in ((("skip_n_bytes",), "skip"), (("next_is_bc",), "bunch-counter"), (("is_header_seen",), "padding")):
+        cand = labels.get(fl, [])
+        ok = len(cand) == 1 and ev._ends_in_return(tb, cand[0][1]["then"])
+        rep.check(ok, "R13.1", "R13.1|early-exit|%s" % name, "the %s branch ends the step with `return`" % name, WL,
+                  "the %s branch of decode() does not end with `return`: the same byte would also be classified" % name)
+    # order of the early exits: skip, then bunch counter, then padding, then classification
+    order = [tuple(_fields_in(tb, n["cond"])) for x, n in ifs if tuple(_fields_in(tb, n["cond"])) in (("skip_n_bytes",), ("next_is_bc",), ("is_header_seen",))]
+    rep.check(order[:3] == [("skip_n_bytes",), ("next_is_bc",), ("is_header_seen",)], "R13.1", "R13.1|early-exit|order", "skip → bunch-counter → padding → classify", WL,
+              "early exits are tested in the order %s" % order)
+    # skip branch: decrement by one
+    out = ev.collect_ifs(dec, [Sym("self"), Sym("B")])
+    sk = [o for o in out if "assign" in o and o["assign"][1] == "sym(self.skip_n_bytes)" and o["guard"] == ("Gt(sym(self.skip_n_bytes),0x0)",)]
+    rep.check(len(sk) == 1 and sk[0]["assign"][0] == "SubAssign" and sk[0]["assign"][2] == "0x1", "R13.1", "R13.1|skip|decrement", "while skip_n_bytes > 0 one byte is consumed and the counter decremented by 1", WL,
+              "skip branch: %s" % [o["assign"] for o in sk])
+    bc = [o for o in out if "assign" in o and o["assign"][1] == "sym(self.next_is_bc)" and o["guard"] == ("symc(sym(self.next_is_bc))",)]
+    rep.check(len(bc) == 1 and bc[0]["assign"][2] == "false", "R13.1", "R13.1|bc|cleared", "the bunch-counter flag is cleared after its byte", WL)
+
+    # where the byte is looked at
+    byte_id = None
+    if len(tb.params) >= 2:
+        pat = tb.params[1].get("pat") or {}
+        byte_id = pat.get("id")
+    uses = byte_uses(tb, byte_id) if byte_id is not None else []
+    rep.floor("R13.1-byte-uses", len(uses), 6, "non-log uses of the byte parameter in decode()")
+    allowed = {
+        ("then[next_is_bc]",): "bunch-counter byte",
+        ("cond[is_header_seen]",): "padding test",
+        ("scrutinee",): "classification",
+        ("arm:ChipHeader",): "arm:ChipHeader",
+        ("arm:ChipEmptyFrame",): "arm:ChipEmptyFrame",
+        ("arm:ChipTrailer",): "arm:ChipTrailer",
+    }
+
+    def norm_ctx(c):
+        c = tuple(x for x in c if not x.startswith("arm:bind:") and x not in ("arm:_",))
+        # drop the enclosing Ok(word) arm and if-let wrappers inside an allowed branch
+        c = tuple(x for x in c if x not in ("arm:Ok",))
+        if c and c[0] == "then[next_is_bc]":
+            return ("then[next_is_bc]",)
+        if len(c) >= 2 and c[0] == "scrutinee":
+            return ("scrutinee",)
+        return c[-1:] if c and c[-1].startswith("arm:") else c
+
+    seen = {}
+    for u in uses:
+        seen.setdefault(norm_ctx(u), 0)
+        seen[norm_ctx(u)] += 1
+    extra = sorted(k for k in seen if k not in allowed)
+    missing = sorted(v for k, v in allowed.items() if k not in seen)
+    rep.check(not extra and not missing, "R13.1", "R13.1|byte-uses", "the byte is inspected only for: %s" % sorted(allowed.values()), WL,
+              "decode() inspects its byte in contexts %s (missing: %s) — hit bytes must not influence state" % (extra, missing))
+    # arms of data words and region header carry no call besides logging
+    calls_in_arms = {}
+    for x, n in tb.walk():
+        if n["k"] != "Match":
+            continue
+        for a in n["arms"]:
+            arm = tb.arms[a]
+            names = _variant_names(arm["pat"])
+            for nm in names:
+                if nm in ("DataShort", "DataLong", "RegionHeader", "BusyOn", "BusyOff"):
+                    cs = [(c.get("res") or c.get("fn") or "") for y, c in tb.calls(arm["body"]) if not _noise(c) and not _noise(tb.exprs[y])]
+                    cs = [c for c in cs if not c.startswith(("core::fmt", "log::", "core::panicking")) and "__private_api" not in c and not c.endswith("Level::as_str") and "max_level" not in c and "PartialOrd" not in c]
+                    calls_in_arms[nm] = cs
+    rep.check(set(calls_in_arms) >= {"DataShort", "DataLong", "RegionHeader"} and not any(calls_in_arms.values()), "R13.1", "R13.1|data-arms-pure",
+              "data-word/region-header/busy arms only set decoder state (no call)", WL, "calls in hit-content arms: %s" % {k: v for k, v in calls_in_arms.items() if v})
+
+    # trailer flags go to the statistics exactly once, from the trailer arm
+    lrf = [c for c, *_ in cg.call_sites(lambda p_: p_.endswith("AlpideStats::log_readout_flags")) if c in reach]
+    rep.check(lrf == [dec], "R13.1", "R13.1|flags|single-site", "log_readout_flags is called only by decode() (trailer arm)", WL, "callers: %s" % lrf)
+    if RF in f.fns:
+        rows = {}
+        for b in range(0xB0, 0xC0):
+            out = ev.collect_ifs(RF, [Sym("self"), Bits.const(b, 8)])
+            eff = {}
+            for o in out:
+                if "assign" in o and all(g == "true" for g in o["guard"]):
+                    op, lhs, rhs = o["assign"]
+                    nm = re.fullmatch(r"sym\(self\.(\w+)\)", lhs)
+                    val = {"0x1": 1, "sym(boolcast(true))": 1, "sym(boolcast(false))": 0}.get(rhs, rhs)
+                    if op == "AddAssign" and nm:
+                        if val != 0:
+                            eff[nm.group(1)] = val
+                    else:
+                        eff[lhs] = op + rhs
+            rows[b] = eff
+        badrows = {}
+        for b, eff in rows.items():
+            exp = {"chip_trailers_seen": 1}
+            if str(b) in O["readout_flags"]["exact"]:
+                exp[O["readout_flags"]["exact"][str(b)]] = 1
+            else:
+                for bit, nm in O["readout_flags"]["bits"].items():
+                    if (b >> int(bit)) & 1:
+                        exp[nm] = 1
+            if eff != exp:
+                badrows["0x%02X" % b] = (eff, exp)
+        rep.check(not badrows, "R13.1", "R13.1|flags|table", "readout-flag counters per trailer value 0xB0-0xBF equal the documented table", "fastpasta/src/stats/stats_collector/its_stats/alpide_stats.rs",
+                  "readout-flag counters deviate: %s" % {k: "got %s want %s" % v for k, v in badrows.items()})
+    else:
+        rep.missing("R13.1", RF)
+
+    # every byte of the lane is decoded, in order
+    an = LA + "analyze_alpide_frame"
+    b = cg.body(an) if an in f.fns else None
+    if b is None:
+        rep.missing("R13.1", an)
+    else:
+        chain = [cal.split("::")[-1] for bb, t, cal, c in b.calls() if cal and (cal.startswith("core::iter") or cal.startswith("core::slice") or "Iterator" in cal)]
+        fe = [(bb, t) for bb, t, cal, c in b.calls() if cal and cal.endswith("::for_each")]
+        ok = chain == ["iter", "for_each"] and len(fe) == 1
+        if ok:
+            so = show_origin(b.origin(fe[0][1]["args"][0]))
+            ok = "LaneDataFrame::data" in so and "arg2" in so
+        clo = an + "::{closure#0}"
+        if ok and clo in f.fns:
+            cb = cg.body(clo)
+            dcalls = [(bb, t) for bb, t, cal, c in cb.calls() if cal == dec]
+            ok = len(dcalls) == 1 and cb.all_paths_pass(0, [dcalls[0][0]]) and show_origin(cb.origin(dcalls[0][1]["args"][1])) in ("arg2.*", "*arg2", "arg2*")
+            if not ok:
+                chain.append("closure arg: %s" % (show_origin(cb.origin(dcalls[0][1]["args"][1])) if dcalls else None))
+        rep.check(ok, "R13.1", "R13.1|all-bytes-in-order", "every byte of the lane data is decoded once, in order (data().iter().for_each(decode))", WL,
+                  "analyze_alpide_frame does not feed every lane byte in order to decode(): %s" % chain)
+        # checks are run unless the lane is fatal
+        ifs_ = [o for o in ev.collect_ifs(an, [Sym("self"), Sym("ldf")]) if "cond" in o]
+        fat = [o for o in ifs_ if ckey(o["cond"]) == "symc(sym(self.lane_status_fatal))"]
+        dl = [bb for bb, t, cal, c in b.calls() if cal == LA + "do_lane_alpide_checks"]
+        rep.check(len(fat) == 1 and len(dl) == 1, "R13.1", "R13.1|checks-unless-fatal", "lane checks run iff the lane did not announce a fatal state", WL)
+
+
+# ------------------------------------------------------------------ R13.2
+def codes_under(facts, tb, i):
+    out = set()
+    seen = set()
+    for x, n in tb.walk(i):
+        s = n.get("str")
+        if s:
+            out.update(codes_in(s))
+            if re.fullmatch(r"E\d{2,4}", s):
+                out.add(s)
+        sp = n.get("sp")
+        if sp and sp.get("mac"):
+            key = (sp["f"], sp["l"], sp.get("l2"))
+            if key not in seen:
+                seen.add(key)
+                out.update(codes_in(first_literal(macro_source(facts, sp)) or ""))
+    return out
+
+
+def r132(ctx, rep, f, ev, cg, reach, O):
+    WA = "fastpasta/src/analyze/validators/its/alpide/alpide_readout_frame.rs"
+    WR = "fastpasta/src/analyze/validators/its/cdp_running/readout_frame.rs"
+    WC = "fastpasta/src/analyze/validators/its/cdp_running.rs"
+    WL = "fastpasta/src/analyze/validators/its/alpide/lane_alpide_frame_analyzer.rs"
+    # lanes per frame
+    cf = ARF + "AlpideReadoutFrame::check_frame_lanes_valid"
+    if cf not in f.fns:
+        rep.missing("R13.2", cf)
+    else:
+        for lay, cnt in O["lanes_per_frame"].items():
+            slf = Agg(ARF + "AlpideReadoutFrame", "AlpideReadoutFrame", {
+                "from_layer": Agg("core::option::Option", "Some", {"0": Agg(LAYER, lay, {})}),
+                "lane_data_frames": Sym("LDF"), "frame_end_mem_pos": Sym("END"), "frame_start_mem_pos": Sym("START")})
+            out = [o for o in ev.collect_ifs(cf, [slf, Sym("FATAL")]) if "cond" in o]
+            flen = "sym(call:core::slice::<impl [T]>::len(sym(payload(sym(FATAL),Some))))"
+            exp = "Ne(sym(call:alloc::vec::Vec::<T, A>::len(sym(LDF))),sym(ite(symc(isSome(sym(FATAL))),sym(Sub(%s,%s)),%s)))" % (hex(cnt), flen, hex(cnt))
+            cmp_ = [o for o in out if ckey(o["cond"]).startswith("Ne(")]
+            ok = len(cmp_) == 1 and ckey(cmp_[0]["cond"]) == exp and not cmp_[0]["guard"]
+            # grouping only for the inner barrel
+            grp = [o for o in out if "Layer::" in ckey(o["cond"]) or ckey(o["cond"]) in ("true", "false")]
+            gcalls = []
+            rep.check(ok, "R13.2", "R13.2|lanes|%s" % lay, "%s: error iff lane count != %d − number of fatal lanes" % (lay, cnt), WA,
+                      "%s barrel: lane-count test is %s, expected `len != %d - fatal.len()`" % (lay, [ckey(o["cond"])[:200] for o in cmp_], cnt))
+        tb = ev.tb(cf)
+        vg = [(x, n) for x, n in tb.calls() if (n.get("fn") or "").endswith("validate_inner_lane_groupings")]
+        ok = False
+        if len(vg) == 1:
+            # the call sits in the else-if branch guarded by from_layer() == Inner
+            for x, n in tb.walk():
+                if n["k"] == "If" and any(y == vg[0][0] for y, _ in tb.walk(n["then"])):
+                    c = ckey(ev.as_cond(ev.eval(tb, n["cond"], _bind_params(ev, tb, [Sym("self"), Sym("FATAL")]), 0)))
+                    if "Layer::Inner()" in c and c.startswith("Eq("):
+                        ok = True
+        rep.check(ok, "R13.2", "R13.2|groups|inner-only", "lane grouping is validated for the inner barrel only, after the count matched", WA)
+    # inner groups
+    vg = ARF + "validate_inner_lane_groupings"
+    tb = ev.tb(vg)
+    if tb is None:
+        rep.missing("R13.2", vg)
+    else:
+        arrays = []
+        for x, n in tb.walk():
+            if n["k"] == "Array":
+                els = [tb.e(e)[1] for e in n["es"]]
+                if els and all(e["k"] == "Lit" and "int" in e for e in els):
+                    arrays.append([e["int"] for e in els])
+        rep.check(arrays == O["inner_groups"], "R13.2", "R13.2|groups|table", "inner lane groups %s" % arrays, WA, "inner lane groups are %s, documented %s" % (arrays, O["inner_groups"]))
+        prune = {}
+        for a in tb.arms:
+            p = a["pat"]
+            while p["k"] == "Deref":
+                p = p["sub"]
+            if p["k"] == "Range":
+                idx = [tb.e(c["args"][1])[1].get("int") for _, c in tb.calls(a["body"]) if (c.get("fn") or "").endswith("<impl [T]>::get_mut")]
+                prune[(p["lo"], p["hi"] if p["incl"] else p["hi"] - 1)] = idx
+        exp = {(g[0], g[-1]): [i] for i, g in enumerate(O["inner_groups"])}
+        rep.check(prune == exp, "R13.2", "R13.2|groups|fatal-pruning", "a fatal lane is removed from the group that contains it", WA, "fatal-lane pruning table %s, expected %s" % (prune, exp))
+        clos = sorted(p_ for p_ in f.fns if p_.startswith(vg + "::{closure#"))
+        retain_ok = 0
+        for c in clos[1:]:
+            ctb = ev.tb(c)
+            ops = [n["op"] for _, n in ctb.walk() if n["k"] == "Binary"]
+            if ops == ["Ne"]:
+                retain_ok += 1
+        rep.check(retain_ok == 3, "R13.2", "R13.2|groups|retain", "pruning keeps every lane != the fatal lane", WA, "retain predicates that are a single `!=`: %d of 3" % retain_ok)
+        b = cg.body(vg)
+        names = [cal.split("::")[-1] for bb, t, cal, c in b.calls() if cal]
+        eqs = [(bb, t) for bb, t, cal, c in b.calls() if cal and (cal.endswith("PartialEq>::eq") or cal.endswith("PartialEq::eq") or "PartialEq" in cal and cal.endswith("::eq"))]
+        srt = [bb for bb, t, cal, c in b.calls() if cal and cal.endswith("::sort_unstable") or cal and cal.endswith("::sort")]
+        ok = len(srt) == 1 and len(eqs) >= 1 and all(b.dominates(srt[0], e[0]) for e in eqs)
+        try:
+            m = vkey(ev.call_closure(("closure", clos[0], {}), [Sym("ldf")], 0)) if clos else ""
+        except Exception as e:  # noqa
+            m = "unevaluable %r" % (e,)
+        ok = ok and "ldf.lane_id" in m
+        rep.check(ok, "R13.2", "R13.2|groups|compare", "sorted lane numbers (from the lane ids) must equal one pruned group", WA,
+                  "grouping comparison: sort sites %d, eq sites %d, lane mapping %s" % (len(srt), len(eqs), m[:160]))
+    # lane data keyed by byte 9, bytes 0..=8 stored
+    sl = ARF + "AlpideReadoutFrame::store_lane_data"
+    tb = ev.tb(sl)
+    if tb is None:
+        rep.missing("R13.2", sl)
+    else:
+        idx = []
+        rng = []
+        for x, n in tb.walk():
+            if n["k"] == "Index":
+                i_ = tb.e(n["i"])[1]
+                if i_["k"] == "Lit" and "int" in i_:
+                    idx.append(i_["int"])
+        for p_ in [sl] + sorted(q for q in f.fns if q.startswith(sl + "::{closure#")):
+            t2 = ev.tb(p_)
+            for x, n in t2.walk():
+                if n["k"] == "Index":
+                    i_ = t2.e(n["i"])[1]
+                    if i_["k"] == "Lit" and "int" in i_ and p_ != sl:
+                        idx.append(i_["int"])
+                if n["k"] == "Call" and (n.get("fn") or "").endswith("RangeInclusive::<Idx>::new"):
+                    rng.append(tuple(t2.e(a)[1].get("int") for a in n["args"]))
+        ok = sorted(set(idx)) == [9] and len(idx) == 2 and rng and set(rng) == {(0, O["lane_word_data_bytes"] - 1)} and len(rng) == 2
+        rep.check(ok, "R13.2", "R13.2|lane-data|bytes", "lane key = byte 9 (find and new), lane data = bytes 0..=8 (append and new)", WA,
+                  "store_lane_data uses index constants %s and ranges %s; expected key byte 9 twice and 0..=8 twice" % (idx, rng))
+    # frame open/close
+    pt = CDP + "preprocess_tdh"
+    if pt in f.fns:
+        out = [o for o in ev.collect_ifs(pt, [Sym("self"), Sym("sl")]) if "cond" in o]
+        op = [o for o in out if "readout_frame_validator" in ckey(o["cond"])]
+        want = ("and[Eq(sym(Shr(sym(BitAnd(sym(unwrap(sym(self.status_words.tdhs.current_tdh)).trigger_type_internal_trigger_no_data_continuation_reserved2),0x4000)),0xe)),0x0);"
+                "symc(isSome(sym(self.readout_frame_validator)));symc(sym(Not(sym(payload(sym(self.readout_frame_validator),Some).is_readout_frame))))]")
+        ok = len(op) == 1 and ckey(op[0]["cond"]) == want
+        tb = ev.tb(pt)
+        nf = [(x, n) for x, n in tb.calls() if (n.get("fn") or "").endswith("::new_frame")]
+        posok = False
+        if len(nf) == 1 and ok:
+            b = cg.body(pt)
+            site = [(bb, t) for bb, t, cal, c in b.calls() if cal and cal.endswith("::new_frame")]
+            posok = len(site) == 1 and "current_word_mem_pos" in show_origin(b.origin(site[0][1]["args"][1]))
+            # replace_tdh before the test
+            rp = [bb for bb, t, cal, c in b.calls() if cal and cal.endswith("::replace_tdh")]
+            posok = posok and len(rp) == 1 and b.dominates(rp[0], site[0][0])
+        rep.check(ok and posok, "R13.2", "R13.2|open", "a frame opens at a TDH with continuation == 0 when no frame is open; start = that word's position", WC,
+                  "frame opening condition is %s (start from word position: %s)" % ([ckey(o["cond"])[:300] for o in op], posok))
+    else:
+        rep.missing("R13.2", pt)
+    ptt = CDP + "preprocess_tdt"
+    if ptt in f.fns:
+        out = [o for o in ev.collect_ifs(ptt, [Sym("self"), Sym("sl")]) if "cond" in o]
+        cl = [o for o in out if "readout_frame_validator" in ckey(o["cond"])]
+        want = "and[Eq(sym(BitAnd(sym(unwrap(sym(self.status_words.tdt)).res0_lane_starts_violation_res1_transmission_timeout_packet_done),0x1)),0x1);symc(isSome(sym(self.readout_frame_validator)))]"
+        ok = len(cl) == 1 and ckey(cl[0]["cond"]) == want
+        if ok:
+            t2 = cl[0]["tb"]
+            ok = any((n.get("fn") or "").endswith("::process_readout_frame") for _, n in t2.calls(t2.exprs[cl[0]["node"]]["then"]))
+            b = cg.body(ptt)
+            rp = [bb for bb, t, cal, c in b.calls() if cal and cal.endswith("::replace_tdt")]
+            pr = [bb for bb, t, cal, c in b.calls() if cal and cal.endswith("::process_readout_frame")]
+            ok = ok and len(rp) == 1 and len(pr) == 1 and b.dominates(rp[0], pr[0])
+        rep.check(ok, "R13.2", "R13.2|close", "a frame is closed and processed at a TDT with packet_done (after the TDT was stored)", WC,
+                  "frame closing condition is %s" % [ckey(o["cond"])[:300] for o in cl])
+    prf = CDP + "process_readout_frame"
+    tb = ev.tb(prf)
+    if tb is not None:
+        ifs_ = [(x, n) for x, n in tb.walk() if n["k"] == "If"]
+        ok = False
+        det = ""
+        if len(ifs_) == 1:
+            x, n = ifs_[0]
+            then_calls = [(c.get("fn") or "").split("::")[-1] for _, c in tb.calls(n["then"])]
+            else_codes = codes_under(ctx.facts(), tb, n["else"]) if n.get("else") is not None else set()
+            cond_calls = [(c.get("fn") or "").split("::")[-1] for _, c in tb.calls(n["cond"])]
+            ok = "process_frame" in then_calls and else_codes == {O["codes"]["close_without_open"]} and "try_close_frame" in cond_calls and "is_ok" in cond_calls
+            det = "cond %s then %s else %s" % (cond_calls, [c for c in then_calls if c in ("process_frame",)], sorted(else_codes))
+        rep.check(ok, "R13.2", "R13.2|close|codes", "try_close_frame().is_ok() → process_frame, otherwise [E59] (%s)" % det, WC)
+        b = cg.body(prf)
+        tc = [(bb, t) for bb, t, cal, c in b.calls() if cal and cal.endswith("::try_close_frame")]
+        rep.check(len(tc) == 1 and "current_word_mem_pos" in show_origin(b.origin(tc[0][1]["args"][1])), "R13.2", "R13.2|close|end-pos", "frame end = position of the closing TDT", WC)
+    else:
+        rep.missing("R13.2", prf)
+    tcf = RFV + "try_close_frame"
+    if tcf in f.fns:
+        out = ev.collect_ifs(tcf, [Sym("self"), Sym("END")])
+        a = [o for o in out if "assign" in o and o["assign"][1] == "sym(self.is_readout_frame)"]
+        rep.check(len(a) == 1 and a[0]["assign"][2] == "false" and not a[0]["guard"], "R13.2", "R13.2|close|flag", "closing always clears the in-frame flag", WR)
+    nfp = RFV + "new_frame"
+    if nfp in f.fns:
+        out = ev.collect_ifs(nfp, [Sym("self"), Sym("POS")])
+        a = {o["assign"][1]: o["assign"][2] for o in out if "assign" in o and not o["guard"]}
+        ok = a.get("sym(self.is_readout_frame)") == "true" and "frame_start_mem_pos=sym(POS)" in a.get("sym(self.alpide_readout_frame)", "")
+        rep.check(ok, "R13.2", "R13.2|open|state", "new_frame stores the start position and sets the in-frame flag", WR, "new_frame assigns %s" % a)
+    try:
+        sp_ = vkey(ev.call_fn(ARF + "AlpideReadoutFrame::start_mem_pos", [Sym("fr")]))
+    except Unsupported as e:
+        sp_ = "unevaluable %s" % e
+    rep.check(sp_ == "sym(fr.frame_start_mem_pos)", "R13.2", "R13.2|offset|accessor", "start_mem_pos() returns the stored start position", WA, "start_mem_pos returns %s" % sp_)
+
+    # process_frame: codes and offsets
+    pf = RFV + "process_frame"
+    tb = ev.tb(pf)
+    if tb is None:
+        rep.missing("R13.2", pf)
+    else:
+        facts = ctx.facts()
+        # E72/E73 under Err(check_frame_lanes_valid); E74/E75 under !lane_error_msgs.is_empty(); E701 via report_empty…
+        sel = []
+        for x, n in tb.walk():
+            if n["k"] == "If":
+                t_ = tb.e(n["then"])[1]
+                e_ = tb.e(n["else"])[1] if n.get("else") is not None else None
+                ts = _single_str(tb, n["then"])
+                es = _single_str(tb, n["else"]) if n.get("else") is not None else None
+                if ts and es and re.fullmatch(r"E\d+", ts) and re.fullmatch(r"E\d+", es):
+                    cv = ev.tb(pf)
+                    cn = tb.e(n["cond"])[1]
+                    sel.append((ts, es, cn.get("name") if cn["k"] == "Var" else cn["k"], x))
+        exp_sel = [(O["codes"]["lane_set_ib"], O["codes"]["lane_set_ob"], "is_ib"), (O["codes"]["lane_errors_ib"], O["codes"]["lane_errors_ob"], "is_ib")]
+        rep.check([s[:3] for s in sel] == exp_sel, "R13.2", "R13.2|codes|selection", "code = is_ib ? E72 : E73 (lane set), is_ib ? E74 : E75 (lane errors)", WR,
+                  "code selections %s, expected %s" % ([s[:3] for s in sel], exp_sel))
+        ifs_ = [o for o in ev.collect_ifs(pf, [Sym("self"), Sym("ch"), Sym("sw"), Sym("rdh")]) if "cond" in o]
+        isib = [o for o in ifs_ if ckey(o["cond"]).startswith("Eq(") and ckey(o["cond"]).endswith(",Layer::Inner())")]
+        rep.check(len(isib) == 2 and all(".from_layer" in ckey(o["cond"]) for o in isib), "R13.2", "R13.2|codes|is_ib", "is_ib = frame.from_layer() == Layer::Inner", WR)
+        # the two selections sit under the right guards
+        okg = False
+        if len(sel) == 2:
+            il = [x for x, n in tb.walk() if n["k"] == "If" and tb.e(n["cond"])[1]["k"] == "Let" and _calls(tb, tb.e(n["cond"])[1]["e"], "check_frame_lanes_valid")]
+            ne = [x for x, n in tb.walk() if n["k"] == "If" and _calls(tb, n["cond"], "is_empty") and tb.e(n["cond"])[1]["k"] != "Let" and _has_not(tb, n["cond"])]
+            okg = len(il) == 1 and len(ne) == 1 and _inside(tb, il[0], sel[0][3]) and _inside(tb, ne[0], sel[1][3]) and not _inside(tb, il[0], sel[1][3])
+        rep.check(okg, "R13.2", "R13.2|codes|guards", "E72/E73 iff check_frame_lanes_valid returned Err; E74/E75 iff a lane reported errors", WR)
+        # empty frame
+        emp = [x for x, n in tb.walk() if n["k"] == "If" and _calls(tb, n["cond"], "AlpideReadoutFrame::is_empty")]
+        oke = False
+        if len(emp) == 1:
+            n = tb.exprs[emp[0]]
+            tc = [(c.get("fn") or "").split("::")[-1] for _, c in tb.calls(n["then"])]
+            oke = "report_empty_alpide_frame_error" in tc and ev._ends_in_return(tb, n["then"])
+        re_ = RFV + "report_empty_alpide_frame_error"
+        ec = codes_under(facts, ev.tb(re_), ev.tb(re_).root) if ev.tb(re_) is not None else set()
+        rep.check(oke and ec == {O["codes"]["empty_frame"]}, "R13.2", "R13.2|codes|empty", "an empty frame is reported with [E701] and not processed further", WR, "empty-frame branch ok=%s codes=%s" % (oke, sorted(ec)))
+        # messages start with the frame start offset
+        b = cg.body(pf)
+        from ..emit import format_sites
+        starts = []
+        for fs in format_sites(facts, b):
+            t_ = fs["template"] or ""
+            if "[{err_code}]" in t_ or "[E7" in t_:
+                first = fs["args"][0][1] if fs["args"] else None
+                starts.append((t_[:24], show_origin(first)[:120] if first is not None else None))
+        ok = len(starts) == 2 and all(s[0].startswith("{mem_pos_start:#X}: [") and "start_mem_pos" in (s[1] or "") for s in starts)
+        rep.check(ok, "R13.2", "R13.2|offset|messages", "E72–E75 messages start with the frame's start offset (upper hex)", WR, "message heads: %s" % starts)
+        if ev.tb(re_) is not None:
+            rb = cg.body(re_)
+            st2 = []
+            for fs in format_sites(facts, rb):
+                t_ = fs["template"] or ""
+                if "[E701]" in t_:
+                    st2.append((t_.strip()[:30], show_origin(fs["args"][0][1])[:160] if fs["args"] else None))
+            rep.check(len(st2) == 1 and st2[0][0].startswith("{mem_pos_start:#X}: [E701]") and "start_mem_pos" in (st2[0][1] or ""), "R13.2", "R13.2|offset|empty-message", "E701 message starts with the frame's start offset", WR, "E701 head: %s" % st2)
+        # alpide stats are forwarded once per processed frame
+        sends = [(bb, t) for bb, t, cal, c in b.calls() if cal and cal.endswith("Sender::<T>::send")]
+        stat = [s for s in sends if re.search(r"StatType\{alpide::check_alpide_data_frame\(.*\)\.2\}$", show_origin(b.origin(s[1]["args"][1])))]
+        rep.check(len(stat) == 1, "R13.2", "R13.2|stats|once", "the frame's ALPIDE statistics are sent exactly once per processed frame", WR, "AlpideStats send sites: %d" % len(stat))
+
+    # per-lane bunch counters
+    cb_ = LA + "check_bunch_counters"
+    if cb_ in f.fns:
+        out = [o for o in ev.collect_ifs(cb_, [Sym("self")]) if "cond" in o]
+        first = out[0] if out else None
+        ok = first is not None and re.fullmatch(r"Gt\(sym\(call:alloc::vec::Vec::<T, A>::len\(sym\(call:itertools::Itertools::collect_vec\(sym\(call:itertools::Itertools::unique_by\(sym\(call:core::slice::<impl \[T\]>::iter\(.*self\.chip_data.*\)\)\)\),0x1\)", ckey(first["cond"])) is not None
+        clo = cb_ + "::{closure#0}"
+        try:
+            kv = vkey(ev.call_closure(("closure", clo, {}), [Sym("cd")], 0))
+        except Exception as e:  # noqa
+            kv = "unevaluable %r" % (e,)
+        ok = ok and kv == "sym(cd.bunch_counter)"
+        rep.check(ok, "R13.2", "R13.2|bc|per-lane", "lane error iff more than one distinct chip bunch counter (unique_by bunch_counter)", WL,
+                  "check_bunch_counters condition %s keyed by %s" % (ckey(first["cond"])[:200] if first else None, kv))
+    dl = LA + "do_lane_alpide_checks"
+    tb = ev.tb(dl)
+    if tb is not None:
+        il = [(x, n) for x, n in tb.walk() if n["k"] == "If" and tb.e(n["cond"])[1]["k"] == "Let" and _calls(tb, tb.e(n["cond"])[1]["e"], "check_bunch_counters")]
+        ok = len(il) == 1 and codes_under(ctx.facts(), tb, il[0][1]["then"]) == {O["codes"]["chip_bc"]} and tb.e(il[0][1]["cond"])[1]["pat"].get("vname") == "Err"
+        rep.check(ok, "R13.2", "R13.2|bc|code", "Err(check_bunch_counters) → [E9003]", WL)
+    # IB chip rules
+    ifs_ = [o for o in ev.collect_ifs(LA + "check_chip_count", [Sym("self")]) if "cond" in o]
+    inner = "and[symc(isInner(sym(payload(sym(self.from_layer),Some))));symc(isSome(sym(self.from_layer)))]"
+    ibc = [o for o in ifs_ if tuple(o["guard"]) == (inner,)]
+    ok = len(ibc) == 1 and ckey(ibc[0]["cond"]) == "Ne(sym(call:alloc::vec::Vec::<T, A>::len(sym(self.chip_data))),%s)" % hex(O["inner_chip_count"])
+    rep.check(ok, "R13.2", "R13.2|ib|chip-count", "IB: error iff the lane carries != 1 chip", WL, "IB chip-count test: %s" % [(ckey(o["cond"])[:120]) for o in ibc])
+    ifs_ = [o for o in ev.collect_ifs(LA + "check_chip_id_order", [Sym("self")]) if "cond" in o]
+    ibo = [o for o in ifs_ if any("isInner" in g for g in o["guard"])]
+    ok = len(ibo) == 1 and ckey(ibo[0]["cond"]).startswith("Ne(sym(index(") and ckey(ibo[0]["cond"]).endswith(",0x0)),sym(self.lane_number))")
+    rep.check(ok, "R13.2", "R13.2|ib|chip-id", "IB: error iff the chip id differs from the lane number", WL, "IB chip-id test: %s" % [ckey(o["cond"])[-80:] for o in ibo])
+    out = ev.collect_ifs(LA + "analyze_alpide_frame", [Sym("self"), Sym("ldf")])
+    ln = [o for o in out if "assign" in o and o["assign"][1] == "sym(self.lane_number)"]
+    rep.check(len(ln) == 1 and not ln[0]["guard"] and "ldf.lane_id" in ln[0]["assign"][2] and "self.from_layer" in ln[0]["assign"][2], "R13.2", "R13.2|ib|lane-number",
+              "lane number = lane_number(lane id, barrel) set before decoding", WL)
+
+    # cross-lane comparison over validated lanes only
+    vb = ALP + "validate_lane_bcs"
+    if vb in f.fns:
+        out = [o for o in ev.collect_ifs(vb, [Sym("VL"), Sym("msgs"), Sym("ids")]) if "cond" in o]
+        c0 = ckey(out[0]["cond"]) if out else ""
+        ok = c0.startswith("Gt(sym(call:alloc::vec::Vec::<T, A>::len(") and c0.endswith(",0x1)") and "Itertools::unique(" in c0 and "sym(VL)" in c0
+        try:
+            kv = vkey(ev.call_closure(("closure", vb + "::{closure#0}", {}), [Sym("lane")], 0))
+        except Exception as e:  # noqa
+            kv = "unevaluable %r" % (e,)
+        rep.check(ok and kv == "sym(lane.bunch_counter)", "R13.2", "R13.2|bc|cross-lane", "frame error iff validated lanes carry more than one distinct bunch counter", "fastpasta/src/analyze/validators/its/alpide.rs",
+                  "cross-lane condition %s keyed by %s" % (c0[:160], kv))
+        b = cg.body(vb)
+        pushes = [bb for bb, t, cal, c in b.calls() if cal and cal.endswith("Vec::<T, A>::push") and "arg2" in show_origin(b.origin(t["args"][0]))]
+        rep.check(len(pushes) == 1, "R13.2", "R13.2|bc|cross-lane-message", "one message is added for a cross-lane mismatch", "fastpasta/src/analyze/validators/its/alpide.rs")
+    cl = ALP + "check_alpide_data_frame::{closure#0}"
+    tb = ev.tb(cl)
+    if tb is not None:
+        # ValidatedLane constructed only in the branch where analyze returned Ok and the lane is not fatal
+        vl = [x for x, n in tb.walk() if n["k"] == "Adt" and (n.get("adt") or "").endswith("ValidatedLane")]
+        il = [(x, n) for x, n in tb.walk() if n["k"] == "If" and tb.e(n["cond"])[1]["k"] == "Let" and _calls(tb, tb.e(n["cond"])[1]["e"], "analyze_alpide_frame")]
+        ok = False
+        if len(vl) == 1 and len(il) == 1 and il[0][1].get("else") is not None:
+            en = tb.e(il[0][1]["else"])[1]
+            # else → if is_fatal_lane {..} else { push validated }
+            inner_if = [(x, n) for x, n in tb.walk(il[0][1]["else"]) if n["k"] == "If" and _calls(tb, n["cond"], "is_fatal_lane")]
+            ok = len(inner_if) == 1 and inner_if[0][1].get("else") is not None and any(y == vl[0] for y, _ in tb.walk(inner_if[0][1]["else"])) \
+                and not any(y == vl[0] for y, _ in tb.walk(inner_if[0][1]["then"])) and tb.e(il[0][1]["cond"])[1]["pat"].get("vname") == "Err"
+        rep.check(ok, "R13.2", "R13.2|bc|validated-only", "only lanes without errors and not fatal enter the cross-lane comparison", "fastpasta/src/analyze/validators/its/alpide.rs")
+        # statistics summed for every lane
+        sums = [x for x, n in tb.calls() if (n.get("fn") or "").endswith("AlpideStats::sum")]
+        in_branch = any(y == sums[0] for x, n in il for y, _ in list(tb.walk(n["then"])) + (list(tb.walk(n["else"])) if n.get("else") is not None else [])) if sums and il else True
+        rep.check(len(sums) == 1 and not in_branch, "R13.2", "R13.2|stats|every-lane", "each lane's readout-flag counters are added unconditionally", "fastpasta/src/analyze/validators/its/alpide.rs")
+    else:
+        rep.missing("R13.2", cl)
+
+
+def _bind_params(ev, tb, args):
+    env = {}
+    for p_, a in zip(tb.params, args):
+        ev.bind(p_.get("pat"), a, env)
+    return env
+
+
+def _single_str(tb, i):
+    lits = [n["str"] for _, n in tb.walk(i) if n["k"] == "Lit" and "str" in n]
+    others = [n for _, n in tb.walk(i) if n["k"] in ("Call", "If", "Match")]
+    return lits[0] if len(lits) == 1 and not others else None
+
+
+def _calls(tb, i, suffix):
+    return any((n.get("res") or n.get("fn") or "").endswith(suffix) for _, n in tb.calls(i))
+
+
+def _has_not(tb, i):
+    return any(n["k"] == "Unary" and n.get("op") == "Not" for _, n in tb.walk(i))
+
+
+def _inside(tb, outer, inner):
+    n = tb.exprs[outer]
+    return any(y == inner for y, _ in tb.walk(n["then"]))
+
+
+# ------------------------------------------------------------------ R13.3
+def r133(ctx, rep, f, ev, cg, reach, O):
+    WL = "fastpasta/src/analyze/validators/its/alpide/lane_alpide_frame_analyzer.rs"
+    WR = "fastpasta/src/analyze/validators/its/cdp_running/readout_frame.rs"
+    # writers of lane_status_fatal
+    writers = set()
+    for p in sorted(reach):
+        fn = f.fns.get(p)
+        if not fn or not fn.get("thir"):
+            continue
+        tb = ev.tb(p)
+        if tb is None:
+            continue
+        for x, n in tb.walk():
+            if n["k"] in ("Assign", "AssignOp"):
+                ln = tb.e(n["l"])[1]
+                if ln["k"] == "Field" and ln.get("name") == "lane_status_fatal":
+                    writers.add(p)
+    rep.check(writers == {LA + "decode"}, "R13.3", "R13.3|fatal|writers", "lane_status_fatal is set only by the decoder (fatal APE classes, see R13.1 effect table)", WL, "writers: %s" % sorted(writers))
+    try:
+        v = vkey(ev.call_fn(LA + "is_fatal_lane", [Sym("an")]))
+    except Unsupported as e:
+        v = "unevaluable %s" % e
+    rep.check(v == "sym(an.lane_status_fatal)", "R13.3", "R13.3|fatal|accessor", "is_fatal_lane() returns the flag", WL, "is_fatal_lane returns %s" % v)
+    # fatal lanes list: pushed with the lane number under is_fatal_lane
+    cl = ALP + "check_alpide_data_frame::{closure#0}"
+    if cl in f.fns:
+        b = cg.body(cl)
+        pushes = [(bb, t) for bb, t, cal, c in b.calls() if cal and cal.endswith("Vec::<T, A>::push")]
+        fp = [p_ for p_ in pushes if "fatal_lanes" in show_origin(b.origin(p_[1]["args"][0])) or "unwrap" in show_origin(b.origin(p_[1]["args"][0]))]
+        isf = [bb for bb, t, cal, c in b.calls() if cal == LA + "is_fatal_lane"]
+        ok = len(isf) == 1 and len(fp) == 1 and b.dominates(isf[0], fp[0][0]) and "lane_number" in show_origin(b.origin(fp[0][1]["args"][1]))
+        rep.check(ok, "R13.3", "R13.3|fatal|collected", "a lane number joins the fatal list only after is_fatal_lane()", "fastpasta/src/analyze/validators/its/alpide.rs",
+                  "fatal-lane pushes: %s" % [show_origin(b.origin(p_[1]["args"][1]))[:80] for p_ in fp])
+    # add_fatal_lanes single caller with the 4th result
+    afl = RFV + "add_fatal_lanes"
+    cs = sorted(set(c for c, *_ in cg.call_sites(lambda p_: p_ == afl) if c in reach))
+    rep.check(cs == [RFV + "process_frame"], "R13.3", "R13.3|fatal|single-source", "fatal lanes are added only by process_frame from the frame analysis result", WR, "callers of add_fatal_lanes: %s" % cs)
+    wr = set()
+    for p in sorted(reach):
+        fn = f.fns.get(p)
+        if not fn or not fn.get("thir"):
+            continue
+        tb = ev.tb(p)
+        if tb is None:
+            continue
+        for x, n in tb.walk():
+            if n["k"] in ("Assign", "AssignOp"):
+                ln = tb.e(n["l"])[1]
+                if ln["k"] == "Field" and ln.get("name") == "fatal_lanes" and (ln.get("adt") or "").endswith("ItsReadoutFrameValidator"):
+                    wr.add(p)
+    rep.check(wr <= {afl}, "R13.3", "R13.3|fatal|field-writers", "the running fatal-lane list is written only by add_fatal_lanes", WR, "writers: %s" % sorted(wr))
+    pf = RFV + "process_frame"
+    if pf in f.fns:
+        b = cg.body(pf)
+        cv = [(bb, t) for bb, t, cal, c in b.calls() if cal and cal.endswith("::check_frame_lanes_valid")]
+        ad = [bb for bb, t, cal, c in b.calls() if cal == afl]
+        ok = len(cv) == 1 and "fatal_lanes" in show_origin(b.origin(cv[0][1]["args"][1]))
+        ads = [(bb, t) for bb, t, cal, c in b.calls() if cal == afl]
+        srcs = [show_origin(b.origin(t["args"][1])) for bb, t in ads]
+        rep.check(len(ads) == 1 and re.search(r"alpide::check_alpide_data_frame\(.*\)\.3", srcs[0]) is not None, "R13.3", "R13.3|fatal|source-value",
+                  "the only value added to the fatal-lane list is the frame analysis' fatal-lane result", WR,
+                  "add_fatal_lanes is called %d time(s) with %s; expected once with check_alpide_data_frame(..).3" % (len(ads), [x[:120] for x in srcs]))
+        rep.check(ok, "R13.3", "R13.3|fatal|used", "the lane-count rule receives the running fatal-lane list", WR)
